@@ -60,7 +60,7 @@ type c18Finding struct {
 }
 
 type c18Stats struct {
-	Runs, KeptChecks, Scribbles int64
+	Runs, KeptChecks, Scribbles, Audits int64
 	Pairs                        map[[2]int]struct{}
 }
 
@@ -72,7 +72,7 @@ func c18RunCall(cl pool.Call) (o pool.Out, panicked any) {
 
 // c18Shuffles runs n shuffled sequential passes over the pool and returns every difference from
 // the baseline, plus every alteration of data handed back by an earlier call.
-func c18Shuffles(calls []pool.Call, base []string, prior []int, rng *rand.Rand, n, heavyOneIn int, st *c18Stats) []c18Finding {
+func c18Shuffles(calls []pool.Call, base []string, prior []int, rng *rand.Rand, n, heavyOneIn int, st *c18Stats, audit bool) []c18Finding {
 	var out []c18Finding
 	// everything this process executed so far (the state a result could depend on), capped
 	order := append([]int(nil), prior...)
@@ -106,6 +106,13 @@ func c18Shuffles(calls []pool.Call, base []string, prior []int, rng *rand.Rand, 
 			}
 			if o.Res != base[i] {
 				out = append(out, c18Finding{"history-dependence", cl.Name, o.Res, base[i], append([]int(nil), order...)})
+			}
+			if audit && s%2 == 1 { // every other pass: the library's pools hold no object twice after the call
+				dups, _ := c18PoolAudit()
+				st.Audits++
+				for _, d := range dups {
+					out = append(out, c18Finding{"pool-double-put", cl.Name, d, "every pooled object present once", nil})
+				}
 			}
 			if o.Keep != nil && (!cl.Heavy || rng.IntN(3) == 0) {
 				snap := o.Keep()
@@ -214,7 +221,7 @@ func subC18Seq(args []string) {
 		os.Exit(2)
 	}
 	st := &c18Stats{}
-	fs := c18Shuffles(calls, base, nil, rand.New(rand.NewPCG(seed, 0xC18)), n, h, st)
+	fs := c18Shuffles(calls, base, nil, rand.New(rand.NewPCG(seed, 0xC18)), n, h, st, false)
 	for _, f := range fs {
 		line, _ := stdjson.Marshal(f)
 		fmt.Println(string(line))
@@ -371,6 +378,13 @@ func runC18(c *Ctx) {
 			continue
 		}
 		base[i] = o.Res
+		// pool discipline after the call (also keeps the baseline of later calls free of its effects)
+		if dups, n := c18PoolAudit(); len(dups) > 0 {
+			for _, d := range dups {
+				c.Violate("pool-double-put", cl.Name, nil, map[string]any{"pool": d, "stage": "baseline pass (calls in pool order)", "pooled_objects_seen": n})
+			}
+		}
+		c.Case("pool-audit|"+cl.Name, true)
 		if strings.HasPrefix(o.Res, pool.LibPanicPrefix) {
 			c.Panic(cl.Name, nil, o.Res, map[string]any{"stage": "baseline", "note": "a panic that is not the user code's own escaped the library"})
 		}
@@ -424,7 +438,8 @@ func runC18(c *Ctx) {
 	for i := range prior {
 		prior[i] = i
 	}
-	fs := c18Shuffles(calls, base, prior, c.Rng, inproc, heavyOneIn, st)
+	fs := c18Shuffles(calls, base, prior, c.Rng, inproc, heavyOneIn, st, true)
+	c.HitN("pool-audits", st.Audits)
 	c.Note("in-process shuffles: %d passes, %d calls, %.1fs", inproc, st.Runs, time.Since(t0).Seconds())
 	for p := range st.Pairs {
 		if p[0] >= 0 {
